@@ -160,20 +160,22 @@ type Journal struct {
 	ChanMaxLen   int    `json:"chan_max_len"`
 	Abandoned    int    `json:"abandoned"` // tasks still alive when main returned
 	// simulated time
-	TimersSet   int   `json:"timers_set,omitempty"`
-	TimersFired int   `json:"timers_fired,omitempty"`
-	ClockJumps  int   `json:"clock_jumps,omitempty"` // all tasks blocked: clock advanced to the next timer
-	JumpedUs    int64 `json:"jumped_us,omitempty"`
-	SimTimeUs   int64 `json:"sim_time_us"` // simulated time at exit (ticks + jumps), microseconds
-	DelayedReads int  `json:"delayed_reads,omitempty"`
-	DelayedWrites int `json:"delayed_writes,omitempty"`
-	StmtPreempts  int `json:"stmt_preempts,omitempty"` // pre-emptions between two statements
+	TimersSet     int   `json:"timers_set,omitempty"`
+	TimersFired   int   `json:"timers_fired,omitempty"`
+	ClockJumps    int   `json:"clock_jumps,omitempty"` // all tasks blocked: clock advanced to the next timer
+	JumpedUs      int64 `json:"jumped_us,omitempty"`
+	SimTimeUs     int64 `json:"sim_time_us"` // simulated time at exit (ticks + jumps), microseconds
+	DelayedReads  int   `json:"delayed_reads,omitempty"`
+	DelayedWrites int   `json:"delayed_writes,omitempty"`
+	StmtPreempts  int   `json:"stmt_preempts,omitempty"`  // pre-emptions between two statements
+	TimePreempts  int   `json:"time_preempts,omitempty"`  // a task computed 10 ms without a scheduling point
+	FairnessPicks int   `json:"fairness_picks,omitempty"` // a task had waited too long and was chosen against the policy
 	// memory traffic of the whole process at exit (runtime.MemStats): a second
 	// deterministic cost measure besides the logical clock; it also sees work
 	// done inside the standard library and dependencies (copies, re-rendering)
 	AllocBytes uint64 `json:"alloc_bytes"`
 	Mallocs    uint64 `json:"mallocs"`
-	Note         string `json:"note,omitempty"`
+	Note       string `json:"note,omitempty"`
 }
 
 // Exit codes used by the runtime itself (never by crd).
@@ -286,6 +288,12 @@ func Tick() {
 	ticks++
 	if ticks > budget {
 		finish("step-budget", ExitStepBudget)
+	}
+	if len(tasks) > 1 && ticks-lastSchedTick > preemptTicks && !exiting {
+		// ten simulated milliseconds of computing without a scheduling point
+		lastSchedTick = ticks
+		journal.TimePreempts++
+		yieldOthers()
 	}
 }
 
